@@ -22,10 +22,14 @@ void SetLastError(DWORD e) { last_error = e; }
 DWORD GetLastError(void) { return last_error; }
 // what the library told Win32 about handles (the Windows halves of C10 / C11, as far as they can be
 // observed at the CreateProcessW boundary)
+static int win_fail_at;   // 1 SetHandleInformation, 2 InitializeProcThreadAttributeList (filling call), 3 UpdateProcThreadAttribute, 4 CreateProcessW
+static DWORD win_fail_err;
+static int n_attr_deleted;
 static HANDLE rec_inheritable[16], rec_list[16], rec_closed[16], rec_std[3];
 static int n_inheritable, n_list, n_closed, rec_inherit_flag, rec_std_flag, rec_ext_flag, rec_has_list;
 BOOL SetHandleInformation(HANDLE h, DWORD mask, DWORD flags)
 {
+  if (win_fail_at == 1) { SetLastError(win_fail_err); return 0; }
   if ((mask & HANDLE_FLAG_INHERIT) && (flags & HANDLE_FLAG_INHERIT) && n_inheritable < 16) rec_inheritable[n_inheritable++] = h;
   return 1;
 }
@@ -38,6 +42,7 @@ BOOL InitializeProcThreadAttributeList(LPPROC_THREAD_ATTRIBUTE_LIST l, DWORD n, 
     SetLastError(ERROR_INSUFFICIENT_BUFFER);
     return 0;
   }
+  if (win_fail_at == 2) { SetLastError(win_fail_err); return 0; }
   memset(l, 0, sizeof(struct verif_attr_list));
   return 1;
 }
@@ -45,13 +50,14 @@ BOOL UpdateProcThreadAttribute(LPPROC_THREAD_ATTRIBUTE_LIST l, DWORD flags, uint
                                LPVOID prev, SIZE_T *ret)
 {
   (void) l; (void) flags; (void) prev; (void) ret;
+  if (win_fail_at == 3) { SetLastError(win_fail_err); return 0; }
   if (attr == PROC_THREAD_ATTRIBUTE_HANDLE_LIST) {
     n_list = 0;
     for (size_t i = 0; i < size / sizeof(HANDLE) && n_list < 16; i++) rec_list[n_list++] = ((HANDLE *) value)[i];
   }
   return 1;
 }
-void DeleteProcThreadAttributeList(LPPROC_THREAD_ATTRIBUTE_LIST l) { (void) l; }
+void DeleteProcThreadAttributeList(LPPROC_THREAD_ATTRIBUTE_LIST l) { (void) l; n_attr_deleted++; }
 UINT SetErrorMode(UINT mode) { (void) mode; return 0; }
 // process ids are derived from the handle so that "the right process" is checkable
 static DWORD pid_of(HANDLE h) { return (DWORD) ((uintptr_t) h * 7 + 11); }
@@ -97,6 +103,7 @@ BOOL CreateProcessW(LPCWSTR app, LPWSTR cmdline, LPSECURITY_ATTRIBUTES pa, LPSEC
   rec_std[1] = si->hStdOutput;
   rec_std[2] = si->hStdError;
   rec_has_list = rec_ext_flag && ((STARTUPINFOEXW *) si)->lpAttributeList != NULL;
+  if (win_fail_at == 4) { SetLastError(win_fail_err); return 0; }
   free(cap_cmd);
   free(cap_env);
   size_t n = wcslen(cmdline);
@@ -478,7 +485,7 @@ static char *rand_arg(int maxlen)
 // Windows halves of C10 (each standard stream is the handle the options name) and C11 (nothing but
 // those three and the exit handle is inheritable by the child), observed where the library hands
 // them to Win32.
-static long st_handle_cases;
+static long st_handle_cases, st_win_faults;
 static void hviol(const char *cls, const char *msg, const HANDLE *h)
 {
   st_viol++;
@@ -502,15 +509,45 @@ static void check_handles(void)
   o.handle.exit = h[3];
   const char *argv[] = { "prog", "x", NULL };
   set_parent(NULL);
-  n_inheritable = n_list = n_closed = 0;
+  n_inheritable = n_list = n_closed = n_attr_deleted = 0;
   create_calls = 0;
   HANDLE proc = INVALID_HANDLE_VALUE;
+  char msg[200];
+  win_fail_at = st_handle_cases % 4 == 0 ? 1 + (int) (rnd() % 4) : 0;
+  static const DWORD ERRS[] = { 2, 5, 8, 87, 1450 };
+  win_fail_err = ERRS[rnd() % 5];
+  long live_before = wrap_live_allocs();
   int r = process_start(&proc, argv, o);
+  long live_after = wrap_live_allocs();
+  if (win_fail_at) {
+    // a Win32 call the launch depends on fails: that error, no process handle, nothing of the caller's
+    // closed, nothing left allocated
+    int fa = win_fail_at;
+    win_fail_at = 0;
+    st_win_faults++;
+    if (r != -(int) win_fail_err) {
+      snprintf(msg, sizeof msg, "Win32 call %d failed with %u, process_start returned %d", fa, win_fail_err, r);
+      hviol("win-fault-wrong-error", msg, h);
+    }
+    if (proc != INVALID_HANDLE_VALUE) hviol("win-fault-handle-set", "a process handle was stored although start failed", h);
+    if (create_calls != (fa == 4 ? 1 : 0)) hviol("win-fault-process-created", "CreateProcessW called after an earlier step had failed", h);
+    for (int j = 0; j < n_closed; j++)
+      for (int i = 0; i < 4; i++)
+        if (rec_closed[j] == h[i]) hviol("win-closes-callers-handle", "process_start closed one of the handles it was given (failing start)", h);
+    if (live_after != live_before) {
+      snprintf(msg, sizeof msg, "%ld allocations live after the failed start (Win32 call %d failing)", live_after - live_before, fa);
+      hviol("win-fault-leak", msg, h);
+    }
+    return;
+  }
+  if (live_after != live_before) {
+    snprintf(msg, sizeof msg, "%ld allocations live after a successful start", live_after - live_before);
+    hviol("win-start-leak", msg, h);
+  }
   if (r < 0 || create_calls != 1) {
     hviol("win-start-failed", "process_start failed for valid handles", h);
     return;
   }
-  char msg[200];
   if (!rec_std_flag || rec_std[0] != h[0] || rec_std[1] != h[1] || rec_std[2] != h[2]) {
     snprintf(msg, sizeof msg, "STARTUPINFO std handles %p/%p/%p (USESTDHANDLES=%d)", rec_std[0], rec_std[1], rec_std[2], rec_std_flag);
     hviol("win-std-handles", msg, h);
@@ -535,6 +572,14 @@ static void check_handles(void)
     if (!known) {
       snprintf(msg, sizeof msg, "the inheritance list holds %p, which is none of the four handles", rec_list[j]);
       hviol("win-handle-list-foreign", msg, h);
+    }
+  }
+  for (int i = 0; i < 4; i++) {
+    int made = 0;
+    for (int j = 0; j < n_inheritable; j++) made |= rec_inheritable[j] == h[i];
+    if (!made) {
+      snprintf(msg, sizeof msg, "handle %p is in the list but was not made inheritable (CreateProcess refuses such a list)", h[i]);
+      hviol("win-handle-not-made-inheritable", msg, h);
     }
   }
   for (int j = 0; j < n_inheritable; j++) {
@@ -710,8 +755,9 @@ int main(int argc, char **argv)
     long w = atol(argv[2]), nw = atol(argv[3]);
     rs = (uint64_t) atol(argv[5]) * 0x9E3779B97F4A7C15ULL + (uint64_t) w * 131 + 5;
     long n = (!strcmp(argv[4], "thorough") ? 200000 : 8000) / nw + 1;
+    w_ledger = 1;   // count what the library allocates and frees
     for (long i = 0; i < n; i++) check_handles();
-    printf("H\t%ld\t%ld\n", st_handle_cases, st_viol);
+    printf("H\t%ld\t%ld\t%ld\n", st_handle_cases, st_viol, st_win_faults);
     return st_viol ? 1 : 0;
   }
   if (argc >= 3 && !strcmp(argv[1], "--one")) {
